@@ -75,6 +75,44 @@ Proof.
   - vm_compute. repeat split; reflexivity.
 Qed.
 
+(* ---- generalised branch bodies (expressions with binary ops, residuals): the cost depends on the leaf layers of the
+   bodies only (g_cost = sn_cost of g_flatten, which commutes with export: C03_g_flatten_export) *)
+Theorem C06_g_cost_is_weighted_mix : forall cost shared th g,
+  g_cost cost shared false th g ==
+  qsum (map (fun e => match e with ECombiner b brs => dot (th b) (map (branch_cost cost) brs) | ELayer _ _ => 0 end) (target_list shared (g_flatten g))).
+Proof. exact g_cost_is_weighted_mix. Qed.
+
+Theorem C06_g_cost_full_adds_fixed : forall cost shared th g,
+  g_cost cost shared true th g == g_cost cost shared false th g + fixed_cost cost shared (g_flatten g).
+Proof. exact g_cost_full_adds_fixed. Qed.
+
+Theorem C06_g_cost_convex : forall cost shared full th g, g_blocks_consistent g -> g_coeffs_ok th g ->
+  g_cost cost shared full (g_hard_sel g (cheapest cost (g_flatten g))) g <= g_cost cost shared full th g /\
+  g_cost cost shared full th g <= g_cost cost shared full (g_hard_sel g (dearest cost (g_flatten g))) g.
+Proof. exact g_cost_convex. Qed.
+
+Theorem C06_g_cost_selection_bounds : forall cost shared full g win, g_blocks_consistent g -> g_winners_ok win g ->
+  g_cost cost shared full (g_hard_sel g (cheapest cost (g_flatten g))) g <= g_cost cost shared full (g_hard_sel g win) g /\
+  g_cost cost shared full (g_hard_sel g win) g <= g_cost cost shared full (g_hard_sel g (dearest cost (g_flatten g))) g.
+Proof. exact g_cost_selection_bounds. Qed.
+
+Theorem C06_g_cost_affine : forall cost shared full th g b lam u v, length u = length v ->
+  g_cost cost shared full (upd th b (lin lam u v)) g ==
+  lam * g_cost cost shared full (upd th b u) g + (1 - lam) * g_cost cost shared full (upd th b v) g.
+Proof. exact g_cost_affine. Qed.
+
+Theorem C06_g_cost_hard_eq_export_cost_shared : forall cost inb full win g e,
+  site_independent cost -> g_blocks_consistent g -> names_ok inb (g_flatten g) -> blocks_disjoint (g_flatten g) ->
+  g_export win g = Some e ->
+  g_cost cost true full (g_hard_sel g win) g == g_plain_cost cost true full inb e.
+Proof. exact g_cost_hard_eq_export_cost_shared. Qed.
+
+Theorem C06_g_cost_hard_eq_export_cost_per_call : forall cost inb full win g e,
+  site_independent cost -> g_blocks_consistent g -> names_ok inb (g_flatten g) -> winners_nodup win (g_flatten g) ->
+  g_export win g = Some e ->
+  g_cost cost false full (g_hard_sel g win) g == g_plain_cost cost false full inb e.
+Proof. exact g_cost_hard_eq_export_cost_per_call. Qed.
+
 Print Assumptions C06_sn_cost_is_weighted_mix.
 Print Assumptions C06_sn_cost_full_adds_fixed.
 Print Assumptions C06_sn_cost_convex.
@@ -83,3 +121,10 @@ Print Assumptions C06_sn_cost_affine.
 Print Assumptions C06_sn_cost_hard_eq_export_cost_shared.
 Print Assumptions C06_sn_cost_hard_eq_export_cost_per_call.
 Print Assumptions C06_sn_cost_site_dependent_refuted.
+Print Assumptions C06_g_cost_is_weighted_mix.
+Print Assumptions C06_g_cost_full_adds_fixed.
+Print Assumptions C06_g_cost_convex.
+Print Assumptions C06_g_cost_selection_bounds.
+Print Assumptions C06_g_cost_affine.
+Print Assumptions C06_g_cost_hard_eq_export_cost_shared.
+Print Assumptions C06_g_cost_hard_eq_export_cost_per_call.
